@@ -130,11 +130,13 @@ def cases(tier, seed):
     out = []
     for n in range(1, L + 1):
         for seq in itertools.product(KINDS, repeat=n):
-            out.append({"seq": list(seq)})
+            # history layer: operation sequences of this length on every expression over these leaves
+            hd = (3 if n <= 2 else 2) if tier == "quick" else (4 if n <= 3 else 3)
+            out.append({"seq": list(seq), "hdepth": hd})
     if tier == "quick":
         # (a+b)+(c+d) needs four leaves: keep a reduced 4-leaf layer in the quick tier
         for seq in itertools.product(("LineA", "LineB", "ant"), repeat=4):
-            out.append({"seq": list(seq)})
+            out.append({"seq": list(seq), "hdepth": 2})
     for kind in KINDS:
         out.append({"above": kind})
     return out
@@ -297,6 +299,93 @@ def _one_tree(seq, shape, ops, use_sum, kw, fails, tag):
     return trans, n
 
 
+def _walk(obj, C):
+    """Reference flattening, written independently of Detector.__iter__: the antennas currently held by a leaf."""
+    if isinstance(obj, C["Detector"]):
+        out = []
+        for s in obj.subsets:
+            out.extend(_walk(s, C))
+        return out
+    if isinstance(obj, list):
+        return list(obj)
+    return [obj]
+
+
+def _history_alphabet(seq):
+    return ["O", "Br"] + ["B%d" % i for i, k in enumerate(seq) if k in ("LineA", "LineB", "Grid")]
+
+
+def _histories(seq, shape, ops, use_sum, depth, fails, tag, only_hist=None):
+    """Every sequence (length <= depth) of {observe the composition, build the composition, build leaf i directly}
+    on a fresh copy of the expression; afterwards length, indexing and iteration of the composition must equal the
+    concatenation, in leaf order, of the antennas each leaf holds at that moment, the trigger must follow a hit and
+    clear() must empty every antenna."""
+    C = _classes()
+    alphabet = _history_alphabet(seq)
+    count = 0
+    hists = [h for d in range(1, depth + 1) for h in itertools.product(alphabet, repeat=d)]
+    if only_hist is not None:
+        hists = [tuple(only_hist)]
+    for hist in hists:
+        leaves = [_leaf(kind, i)[0] for i, kind in enumerate(seq)]
+        try:
+            if use_sum:
+                if not isinstance(leaves[0], C["Detector"]):
+                    return count
+                det = sum(leaves)
+            else:
+                det = _combine(shape, leaves, ops, [0])
+        except _Skip:
+            return count
+        if not isinstance(det, C["Detector"]):
+            return count
+        # `l += r` on a combined detector extends it in place: the composition may then BE leaf-level content; the
+        # reference below only ever walks the leaves, never the composition
+        bad = None
+        for op in hist:
+            count += 1
+            if op == "O":
+                _ = len(det)
+                _ = [det[i] for i in range(len(det))]
+                _ = list(det)
+            elif op == "Br":
+                det.build_antennas()
+            else:
+                leaves[int(op[1:])].build_antennas()
+        want = []
+        for leaf in leaves:
+            want.extend(_walk(leaf, C))
+        n = len(want)
+        got = list(det)
+        if len(got) != n or any(x is not y for x, y in zip(got, want)):
+            bad = ("history-iteration", "iteration yields %d antennas, the leaves hold %d (or other objects / another order)"
+                   % (len(got), n))
+        elif len(det) != n:
+            bad = ("history-len", "len(detector)=%d but iteration gives %d" % (len(det), n))
+        else:
+            for i in range(n):
+                try:
+                    ok = det[i] is want[i] and det[i - n] is want[i]
+                except IndexError:
+                    ok = False
+                if not ok:
+                    bad = ("history-getitem", "detector[%d] is not the %d-th antenna" % (i, i))
+                    break
+        if bad is None and n:
+            _hit(want[-1], C)
+            if not det.triggered():
+                bad = ("history-trigger", "antenna %d is hit but triggered() is false" % (n - 1))
+            det.clear()
+            if not all(_is_empty(a) for a in want):
+                bad = ("history-clear", "clear() left an antenna non-empty")
+        elif bad is None and det.triggered():
+            bad = ("history-trigger", "triggered() is true for a detector without antennas")
+        if bad:
+            fails.append({"check": bad[0], "what": "%s after history %s: %s" % (tag, list(hist), bad[1]),
+                          "tags": {"group": bad[0]}, "size": len(seq) + len(hist), "hist": list(hist)})
+    return count
+
+
 def evaluate(case):
     C = _classes()
     fails = []
@@ -360,7 +449,26 @@ def evaluate(case):
     if n >= 2:
         variants.append((None, (), True))
     only = case.get("only")
+    hdepth = case.get("hdepth", 0)
     for vi, (shape, ops, use_sum) in enumerate(variants):
+        if hdepth and (not only or (only[0] == vi and case.get("hist"))):
+            tag = "leaves %s shape %s ops %s%s" % (seq, shape, list(ops), " via sum()" if use_sum else "")
+            before = len(fails)
+            try:
+                c = _histories(seq, shape, ops, use_sum, hdepth, fails, tag, case.get("hist"))
+            except Exception as e:
+                if src.exception_origin(e) != "library":
+                    raise
+                fails.append({"check": "exception", "what": "%s (history layer): %s" % (tag, src.short_tb(e)),
+                              "tags": {"group": "exception"}, "size": n})
+                c = 1
+            for f in fails[before:]:
+                f["replay"] = {"seq": seq, "only": [vi, 0], "hdepth": hdepth, "hist": f.pop("hist", None) or ["O"]}
+            trans += c
+            if c:
+                nontriv.append("%s|%d|hist" % (",".join(seq), vi))
+        if case.get("hist"):
+            continue
         for ki, kw in enumerate(KWSETS):
             if only and (vi, ki) != tuple(only):
                 continue
